@@ -16,6 +16,29 @@ def main():
         got = srt(env, items, attribute="name")
         out["jinja_sort"].append([[g["name"], g["tag"]] for g in got])
         out["sorted_names"].append(sorted(a for a, _ in rec))
+    # selective generation: key order of the pruned schema dicts against the declaration order of the unpruned schema
+    out["prune"] = []
+    for sel in q.get("selective", []):
+        import base64, copy, dataclasses
+        from google.protobuf.compiler import plugin_pb2
+        from gapic.schema import api as api_mod
+        from gapic.utils import Options
+        req = plugin_pb2.CodeGeneratorRequest.FromString(base64.b64decode(sel["request_b64"]))
+        opts = Options.build(req.parameter)
+        package = ".".join(__import__("os").path.commonprefix([f.package.split(".") for f in req.proto_file if f.name in req.file_to_generate]))
+        pruned = api_mod.API.build(req.proto_file, opts=opts, package=package)
+        cfg = copy.deepcopy(opts.service_yaml_config)
+        cfg.pop("publishing", None)
+        full = api_mod.API.build(req.proto_file, opts=dataclasses.replace(opts, service_yaml_config=cfg), package=package)
+        rows = []
+        for name, pp in pruned.protos.items():
+            if name not in req.file_to_generate or name not in full.protos:
+                continue
+            fp = full.protos[name]
+            for attr in ("all_messages", "all_enums", "services"):
+                rows.append({"file": name, "dict": attr, "decl": list(getattr(fp, attr).keys()), "pruned": list(getattr(pp, attr).keys())})
+        rows.append({"file": "<api>", "dict": "services", "decl": list(full.services.keys()), "pruned": list(pruned.services.keys())})
+        out["prune"].append(rows)
     print(json.dumps(out))
 
 
